@@ -116,12 +116,15 @@ pub fn options(j: &J) -> Options {
 }
 
 fn limit_j(l: &Option<Limit>) -> J {
+	// TLC integers are 32-bit: a threshold beyond 2^31 - 1 is recorded as 2^31 - 1 (no text of this harness is that wide,
+	// no container has that many children: the layout is the same)
+	let c = |x: &usize| (*x).min(i32::MAX as usize);
 	match l {
 		None => json!(["none"]),
 		Some(Limit::Always) => json!(["always"]),
-		Some(Limit::Item(i)) => json!(["item", i]),
-		Some(Limit::Width(w)) => json!(["width", w]),
-		Some(Limit::ItemOrWidth(i, w)) => json!(["iow", i, w]),
+		Some(Limit::Item(i)) => json!(["item", c(i)]),
+		Some(Limit::Width(w)) => json!(["width", c(w)]),
+		Some(Limit::ItemOrWidth(i, w)) => json!(["iow", c(i), c(w)]),
 	}
 }
 
@@ -211,9 +214,11 @@ pub fn replay_print(rep: &mut Report, rec: &J) {
 			}
 		}
 		if is_compact {
-			let t = format!("{:4}", v);
-			if t != exp && t.trim_end() != exp && t.trim_start() != exp {
-				rep.mismatch("C08.flags", json!({"what": "Display of a value under a width flag is not its compact text", "format": "{:4}", "vector": rec, "observed": t}));
+			for (spec, t) in [("{:4}", format!("{:4}", v)), ("{:#}", format!("{:#}", v)), ("{:+.2}", format!("{:+.2}", v)), ("{:#?}-less {:>6}", format!("{:>6}", v))] {
+				if t != exp && t.trim_end() != exp && t.trim_start() != exp && !(spec.contains('.') && exp.starts_with(&t)) {
+					rep.mismatch("C08.flags", json!({"what": "Display of a value under formatter flags is not its compact text", "format": spec, "vector": rec, "observed": t}));
+					break;
+				}
 			}
 		}
 	}
@@ -245,7 +250,11 @@ pub fn replay_print(rep: &mut Report, rec: &J) {
 fn random_options(rng: &mut Rng) -> Options {
 	let mut o = Options::pretty();
 	o.indent = if rng.chance(2, 3) { Indent::Spaces(rng.below(5) as u8) } else { Indent::Tabs(rng.below(3) as u8) };
-	let lim = |rng: &mut Rng| match rng.below(6) {
+	let lim = |rng: &mut Rng| match rng.below(12) {
+		// thresholds at the top of the integer range (usize::MAX, usize::MAX - 1, i32 / u32 / u16 boundaries)
+		6 => Some(Limit::Item(*rng.pick(&[usize::MAX, usize::MAX - 1, u32::MAX as usize, 65535]))),
+		7 => Some(Limit::Width(*rng.pick(&[usize::MAX, usize::MAX - 1, u32::MAX as usize + 1, 65536]))),
+		8 => Some(Limit::ItemOrWidth(*rng.pick(&[usize::MAX, 3, 0]), *rng.pick(&[usize::MAX, usize::MAX - 1, 20]))),
 		0 => None,
 		1 => Some(Limit::Always),
 		2 => Some(Limit::Item(rng.below(5))),
